@@ -74,7 +74,16 @@ pub fn check(t: &Trace<'_>, out: &mut CaseOut) -> bool {
                                     out.violations.push(viol("C04", "C04/ack-refused-although-it-fits", format!("conn {}: inbound PUBLISH (qos {}, id {:?}) was neither delivered nor acknowledged: {} returned PacketTooLarge although the broker's Maximum Packet Size is {:?}", conn, qos, pid, op.unwrap().kind, mps)));
                                 }
                             }
-                            broken = true;
+                            // a PUBLISH refused because its acknowledgement cannot be sent under
+                            // this connection's tiny limit has been neither delivered nor
+                            // acknowledged, the connection ends: when the broker sends it again
+                            // on a later connection it is a first delivery (judged below)
+                            let legit_too_large = matches!(op.unwrap().outcome, Outcome::Err(ErrRepr::PacketTooLarge)) && t.conns.iter().find(|c| c.idx == *conn).and_then(|c| c.mps).is_some_and(|m| m < 5);
+                            if legit_too_large {
+                                out.count("publishes_refused_under_a_tiny_limit", 1);
+                            } else {
+                                broken = true;
+                            }
                             continue;
                         }
                         out.count("inbound_publishes", 1);
